@@ -104,8 +104,8 @@ PROPS = {
         "case_sets": ["compile", "content"],
         "ops": ["COMPILE", "COMPILESEQ"],
         "oracle_clauses": [r"c05-.*", r"c01-keyword-function-name", r"unreadable-.*"],
-        "lean_targets": ["PqlModel.Props.C05", "PqlModel.Props.C02Split", "PqlModel.Props.C05SplitRefines", "PqlModel.Props.C05LexStatement", "PqlModel.Props.C02Semantics", "PqlModel.Props.C02Statement", "PqlModel.Props.C05ParseStatement", "PqlModel.Props.C02EndToEnd", "PqlModel.Props.C05Parsed", "PqlModel.Props.C02EndToEndSource", "PqlModel.Props.C05WriteIR", "PqlModel.Props.C05WriteIROps", "PqlModel.Props.C05WriteIRAll", "PqlModel.Props.C05WriteIRStmt", "PqlModel.Props.C02SplitImperative", "PqlModel.Props.C05NoPlaceholder", "PqlModel.Props.C05NoPlaceholderCli"],
-        "facts": ["writeIR", "writeSwitches"],
+        "lean_targets": ["PqlModel.Props.C05", "PqlModel.Props.C02Split", "PqlModel.Props.C05SplitRefines", "PqlModel.Props.C05LexStatement", "PqlModel.Props.C02Semantics", "PqlModel.Props.C02Statement", "PqlModel.Props.C05ParseStatement", "PqlModel.Props.C02EndToEnd", "PqlModel.Props.C05Parsed", "PqlModel.Props.C02EndToEndSource", "PqlModel.Props.C05WriteIR", "PqlModel.Props.C05WriteIROps", "PqlModel.Props.C05WriteIRAll", "PqlModel.Props.C05WriteIRStmt", "PqlModel.Props.C02SplitImperative", "PqlModel.Props.C05NoPlaceholder", "PqlModel.Props.C05NoPlaceholderCli", "PqlModel.Props.C02SplitIR"],
+        "facts": ["writeIR", "writeSwitches", "splitIR", "splitLoop", "splitCases", "splitParams"],
         "rule": "COMPILE on generated, corrupted-but-accepted and adversarial-content programs; the output must lex, end in one ';', "
                 "balance brackets, parse as [WITH …] select, read only source tables or earlier CTEs, have unique generated names, "
                 "no unused CTE and no comment/placeholder; non-trivial = distinct source that compiles",
@@ -161,8 +161,8 @@ PROPS = {
         "case_sets": ["eval"],
         "ops": ["EVAL"],
         "oracle_clauses": [r"c02-.*", r"c05-parse", r"c05-name-capture", r"unreadable-.*"],
-        "lean_targets": ["PqlModel.Props.C02", "PqlModel.Props.C02Split", "PqlModel.Props.C05SplitRefines", "PqlModel.Props.C02Semantics", "PqlModel.Props.C02Statement", "PqlModel.Props.C02SemanticsCex", "PqlModel.Props.C05ParseStatement", "PqlModel.Props.C03Full", "PqlModel.Props.C02EndToEnd", "PqlModel.Props.C05Parsed", "PqlModel.Props.C02EndToEndSource", "PqlModel.Props.C05WriteIR", "PqlModel.Props.C05WriteIROps", "PqlModel.Props.C05WriteIRAll", "PqlModel.Props.C05WriteIRStmt", "PqlModel.Props.C07Defaults", "PqlModel.Props.C02SplitImperative", "PqlModel.Props.C06Placeholders", "PqlModel.Props.C02ProgramNames"],
-        "facts": ["canAttachSortFalse", "writeIR", "writeSwitches", "sortTermInit", "sortTermFirst", "sortTermNullsKeyword", "sortTermNulls", "rowCountCheck"],
+        "lean_targets": ["PqlModel.Props.C02", "PqlModel.Props.C02Split", "PqlModel.Props.C05SplitRefines", "PqlModel.Props.C02Semantics", "PqlModel.Props.C02Statement", "PqlModel.Props.C02SemanticsCex", "PqlModel.Props.C05ParseStatement", "PqlModel.Props.C03Full", "PqlModel.Props.C02EndToEnd", "PqlModel.Props.C05Parsed", "PqlModel.Props.C02EndToEndSource", "PqlModel.Props.C05WriteIR", "PqlModel.Props.C05WriteIROps", "PqlModel.Props.C05WriteIRAll", "PqlModel.Props.C05WriteIRStmt", "PqlModel.Props.C07Defaults", "PqlModel.Props.C02SplitImperative", "PqlModel.Props.C06Placeholders", "PqlModel.Props.C02ProgramNames", "PqlModel.Props.C02SplitIR", "PqlModel.Props.C03JoinCondIR"],
+        "facts": ["canAttachSortFalse", "writeIR", "writeSwitches", "sortTermInit", "sortTermFirst", "sortTermNullsKeyword", "sortTermNulls", "rowCountCheck", "splitIR", "splitLoop", "splitCases", "splitParams", "joinCondIR"],
         "rule": "EVAL: every sequence of up to 3 (quick) / 4 (thorough) of the eleven operators with fixed small arguments, a corpus of "
                 "order-sensitive pipelines and random generated pipelines over tables T U V; the emitted SQL is evaluated by the "
                 "reference SQL evaluator and compared (as lists: columns, names, rows, order) with the left-to-right pipeline "
@@ -175,8 +175,8 @@ PROPS = {
         "ops": ["EVAL"],
         "line_regex": r"6a6f696e",      # only pipelines that contain a join
         "oracle_clauses": [r"c03-.*", r"c05-parse", r"c05-name-capture", r"unreadable-.*", r"c06-let-named-join-alias"],
-        "lean_targets": ["PqlModel.Props.C03", "PqlModel.Props.C02Split", "PqlModel.Props.C05SplitRefines", "PqlModel.Props.C03Semantics", "PqlModel.Props.C03Chain", "PqlModel.Props.C03ChainTake", "PqlModel.Props.C05ParseStatement", "PqlModel.Props.C03Full", "PqlModel.Props.C02EndToEnd", "PqlModel.Props.C05Parsed", "PqlModel.Props.C11Compile", "PqlModel.Props.C02EndToEndSource", "PqlModel.Props.C02SplitImperative", "PqlModel.Props.C02ProgramNames"],
-        "facts": ["joinTypes", "leftJoinTableAlias", "rightJoinTableAlias"],
+        "lean_targets": ["PqlModel.Props.C03", "PqlModel.Props.C02Split", "PqlModel.Props.C05SplitRefines", "PqlModel.Props.C03Semantics", "PqlModel.Props.C03Chain", "PqlModel.Props.C03ChainTake", "PqlModel.Props.C05ParseStatement", "PqlModel.Props.C03Full", "PqlModel.Props.C02EndToEnd", "PqlModel.Props.C05Parsed", "PqlModel.Props.C11Compile", "PqlModel.Props.C02EndToEndSource", "PqlModel.Props.C02SplitImperative", "PqlModel.Props.C02ProgramNames", "PqlModel.Props.C02SplitIR", "PqlModel.Props.C03JoinCondIR"],
+        "facts": ["joinTypes", "leftJoinTableAlias", "rightJoinTableAlias", "splitIR", "splitLoop", "splitCases", "splitParams", "joinCondIR"],
         "rule": "EVAL on pipelines with joins: all three kinds, bare / explicit / mixed conditions, operators before the join, "
                 "multi-operator right sides, nested and sequential joins (depth <= 2 random, corpus of shapes); evaluated as for C02; "
                 "non-trivial = distinct pipeline with at least one join that compiles",
